@@ -221,7 +221,10 @@ DecodeMembers(t, m, inp, pos, consts, j, st, dyn) ==
         pos |-> IF dyn /\ Len(st.sizes) > 0 THEN pos + st.sizes[Len(st.sizes)] ELSE pos, sizes |-> st.sizes, fl |-> st.fl]
   ELSE LET f == t.fields[j]
            r == Decode(f.type, m, inp, pos, CtxFields(t, st.vals), consts)
-       IN IF ~r.ok THEN ErrR(r.err)
+       IN IF ~r.ok
+          \* an earlier member was accepted although the statement also allows an error there (a partial trailing element of x[EOF]):
+          \* an implementation that reports that error never gets to this member - either error is a refusal of the same input
+          THEN (IF ("lax" \in st.fl /\ r.err = "decode") \/ ("laxdecode" \in st.fl /\ r.err = "eof") THEN ErrR("eof-or-decode") ELSE ErrR(r.err))
           ELSE DecodeMembers(t, m, inp, pos, consts, j + 1,
                              [names |-> Append(st.names, f.name), vals |-> Append(st.vals, r.v),
                               sizes |-> Append(st.sizes, r.pos - pos), fl |-> st.fl \cup r.fl], dyn)
